@@ -43,6 +43,24 @@ func CompareModules(o *ev.Outcome, set *ymodel.Set, obs *Observed, trees map[str
 			return
 		}
 		yref.Attribute(trees[name])
+		if d.NS {
+			// the namespace a node must report: that of the module it belongs to
+			var fill func(x *yref.XNode)
+			fill = func(x *yref.XNode) {
+				if x == nil {
+					return
+				}
+				if mm := set.Find(x.NS); mm != nil && !mm.IsSub {
+					x.NSURI = mm.Namespace
+				}
+				for _, c := range x.Children {
+					fill(c)
+				}
+				fill(x.Input)
+				fill(x.Output)
+			}
+			fill(trees[name].Root)
+		}
 		if df := canon.Diff(trees[name].Root, got, d, "/"+name); df != nil {
 			kind := ""
 			if x := yref.Paths(trees[name])[strings.TrimPrefix(df.Path, "/"+name)]; x != nil {
